@@ -175,32 +175,95 @@ Section Run.
   Definition prior_ok (nc : bool) (j : job V) (fs : fs_t) : Prop :=
     prior nc fs (outp (j_hash j)) (j_args j) (j_kwargs j).
 
-  Theorem single_eq_local nc (j : job V) fs :
-    Name (j_hash j) -> prior_ok nc j fs ->
-    snd (remote_single V pbytes dump load f valid tb_of c prefix nc j fs) = local V f j.
+  Lemma write_single_ow (j : job V) fs :
+    write_single V pbytes dump c prefix j fs = wr fs (inp (j_hash j)) (BP (dump (Seq [j_args j; j_kwargs j]))).
+  Proof. unfold write_single. rewrite (ok_stage c OK). reflexivity. Qed.
+
+  (** shape of one single-job run: the input staged by THIS attempt is what the try block reads *)
+  Lemma single_run_form nc (j : job V) fs : Name (j_hash j) ->
+    oneshot' [] (args_single c prefix (j_hash j) nc) (write_single V pbytes dump c prefix j fs) =
+    match tail nc (rm (write_single V pbytes dump c prefix j fs) (errp (j_hash j))) (outp (j_hash j)) (j_args j) (j_kwargs j) with
+    | (fs2, Raised _ e) => (wr fs2 (errp (j_hash j)) (BP (dump (Seq [e; tb_of e]))), Raised V e)
+    | other => other
+    end.
   Proof.
-    intros Hh P. unfold remote_single.
-    destruct (oneshot' [] (args_single c prefix (j_hash j) nc) (write_single V pbytes dump c prefix j fs))
-      as [fs' r] eqn:E. simpl snd.
-    unfold oneshot in E. cbn [args_single a_array a_error a_rank_env] in E.
-    fold (errp (j_hash j)) in E.
+    intros Hh. unfold oneshot. cbn [args_single a_array a_error a_rank_env].
+    fold (errp (j_hash j)).
     set (fs0 := write_single V pbytes dump c prefix j fs) in *.
-    assert (NIO : inp (j_hash j) <> outp (j_hash j)) by (apply job_file_neq; try solve [apply OK]; assumption).
     assert (NIE : inp (j_hash j) <> errp (j_hash j)) by (apply job_file_neq; try solve [apply OK]; assumption).
-    assert (P0 : prior nc fs0 (outp (j_hash j)) (j_args j) (j_kwargs j)).
-    { unfold prior_ok, prior in *. unfold fs0, write_single. fold (inp (j_hash j)).
-      rewrite rd_wr_other by (intro X; apply NIO; symmetry; exact X). exact P. }
     assert (B : oneshot_body V pbytes dump load f valid (args_single c prefix (j_hash j) nc) 0 (rm fs0 (errp (j_hash j)))
                 = tail nc (rm fs0 (errp (j_hash j))) (outp (j_hash j)) (j_args j) (j_kwargs j)).
     { unfold oneshot_body. cbn [args_single a_array a_output a_input a_no_cache].
       fold (inp (j_hash j)). unfold read_input.
-      rewrite rd_rm_other by assumption. unfold fs0, write_single. fold (inp (j_hash j)).
+      rewrite rd_rm_other by assumption. unfold fs0. rewrite write_single_ow.
       rewrite rd_wr_same, RT. fold (outp (j_hash j)). unfold tail.
       destruct nc; reflexivity. }
-    rewrite B in E. clear B.
+    rewrite B. reflexivity.
+  Qed.
+
+  Lemma write_single_out (j : job V) fs : Name (j_hash j) ->
+    rd (write_single V pbytes dump c prefix j fs) (outp (j_hash j)) = rd fs (outp (j_hash j)).
+  Proof.
+    intros Hh. rewrite write_single_ow. apply rd_wr_other.
+    intro X. symmetry in X. revert X. apply job_file_neq; try solve [apply OK]; assumption.
+  Qed.
+
+  Theorem single_eq_local nc (j : job V) fs :
+    Name (j_hash j) -> prior_ok nc j fs ->
+    snd (remote_single V pbytes dump load f valid tb_of c prefix nc j fs) = local V f j.
+  Proof.
+    intros Hh P. unfold remote_single. rewrite (single_run_form nc j fs Hh).
+    set (fs0 := write_single V pbytes dump c prefix j fs) in *.
+    assert (P0 : prior nc fs0 (outp (j_hash j)) (j_args j) (j_kwargs j)).
+    { unfold prior_ok, prior in *. unfold fs0. rewrite write_single_out by assumption. exact P. }
     destruct (tail nc (rm fs0 (errp (j_hash j))) (outp (j_hash j)) (j_args j) (j_kwargs j)) as [fs2 r2] eqn:T.
     pose proof (wrap_spec nc fs0 (j_hash j) _ _ _ _ fs2 r2 eq_refl eq_refl Hh P0 T) as [C _].
-    unfold local. destruct r2; inversion E; subst; exact C.
+    unfold local. destruct r2; simpl snd; exact C.
+  Qed.
+
+  (** an attempt that raises leaves no output file behind (so it cannot feed the cache of a later
+      attempt of the same evaluation hash) *)
+  Lemma tail_exc_absent nc fs op ta tk fs' r e :
+    rd fs op = None -> f ta tk = Exc V e -> tail nc fs op ta tk = (fs', r) -> rd fs' op = None /\ r = Raised V e.
+  Proof.
+    unfold tail. intros H Hf T. destruct nc.
+    - rewrite Hf in T. inversion T; subst. auto.
+    - rewrite H, Hf in T. inversion T; subst. split; [apply rd_rm_same|reflexivity].
+  Qed.
+
+  Theorem single_exc_keeps_fresh nc (j : job V) fs e :
+    Name (j_hash j) -> rd fs (outp (j_hash j)) = None -> f (j_args j) (j_kwargs j) = Exc V e ->
+    rd (fst (remote_single V pbytes dump load f valid tb_of c prefix nc j fs)) (outp (j_hash j)) = None.
+  Proof.
+    intros Hh Hn Hf. unfold remote_single. rewrite (single_run_form nc j fs Hh).
+    set (fs0 := write_single V pbytes dump c prefix j fs) in *.
+    assert (NE : outp (j_hash j) <> errp (j_hash j)) by (apply out_err_neq; assumption).
+    destruct (tail nc (rm fs0 (errp (j_hash j))) (outp (j_hash j)) (j_args j) (j_kwargs j)) as [fs2 r2] eqn:T.
+    assert (Hn0 : rd (rm fs0 (errp (j_hash j))) (outp (j_hash j)) = None).
+    { rewrite rd_rm_other by assumption. unfold fs0. rewrite write_single_out by assumption. exact Hn. }
+    destruct (tail_exc_absent _ _ _ _ _ _ _ e Hn0 Hf T) as [A ->].
+    simpl fst. rewrite rd_wr_other by assumption. exact A.
+  Qed.
+
+  (** attempt histories on one scratch directory: any sequence of earlier attempts (any arguments,
+      e.g. other config_args / JobInfo under the same evaluation hash) *)
+  Fixpoint run_attempts nc (hist : list (job V)) (fs : fs_t) : fs_t :=
+    match hist with
+    | [] => fs
+    | a :: r => run_attempts nc r (fst (remote_single V pbytes dump load f valid tb_of c prefix nc a fs))
+    end.
+
+  Theorem attempts_after_failures nc hist (j : job V) fs :
+    Name (j_hash j) -> rd fs (outp (j_hash j)) = None ->
+    Forall (fun a => j_hash a = j_hash j /\ exists e, f (j_args a) (j_kwargs a) = Exc V e) hist ->
+    snd (remote_single V pbytes dump load f valid tb_of c prefix nc j (run_attempts nc hist fs)) = local V f j.
+  Proof.
+    intros Hh Hn H. apply single_eq_local; [assumption|].
+    unfold prior_ok, prior.
+    assert (A : rd (run_attempts nc hist fs) (outp (j_hash j)) = None).
+    { revert fs Hn. induction H as [|a r [Ea [e He]] Hr IH]; intros fs Hn; [exact Hn|].
+      simpl. apply IH. rewrite <- Ea. apply single_exc_keeps_fresh with (e := e); rewrite ?Ea; assumption. }
+    rewrite A. exact I.
   Qed.
 
   (** ** Array jobs *)
